@@ -207,7 +207,8 @@ func (g *G) ifStmt() []Stmt {
 		g.f("if-init")
 	}
 	if g.cfg.ConstHeavy && g.chance(30, "constcond") {
-		s.Cond = g.constExpr(KBool, g.intn(0, 2, "ccd"))
+		// any literal kind may be a condition (truthiness): strings, numbers, chars, undefined
+		s.Cond = g.constExpr([]Kind{KBool, KBool, KStr, KInt, KAny, KFloat}[g.pick(6, "ccondkind")], g.intn(0, 2, "ccd"))
 		g.f("if-const-cond")
 	} else {
 		s.Cond = g.boolExpr(g.depth())
@@ -818,6 +819,38 @@ func (g *G) escapeStmt() []Stmt {
 	}
 	// from here on the closure is callable (and keeps its dead block's variables alive)
 	g.declare(&Var{Name: gname, K: KFn, NoAssign: true, Sig: &FnSig{NP: 0, Ret: KInt, FnParam: -1}})
+	if g.chance(45, "escreuse") {
+		// re-use the dead block's slots right away by another declaration form, then call the closure
+		g.f("slot-reuse-after-escape")
+		call := Expr(&Call{Fn: Id(gname)})
+		use := Stmt(&ExprStmt{X: call})
+		if g.cfg.Log {
+			use = &ExprStmt{X: g.L(call)}
+		}
+		switch g.pick(4, "escreuseform") {
+		case 0:
+			if g.cfg.Try {
+				g.uniq++
+				en := fmt.Sprintf("e%d", g.uniq)
+				t := &Try{Body: []Stmt{&Throw{X: g.strLit()}}, HasCatch: true, CatchIdent: en, Catch: []Stmt{use}}
+				g.f("try")
+				g.f("catch-ident")
+				out = append(out, t, use)
+				break
+			}
+			fallthrough
+		case 1:
+			g.uniq++
+			out = append(out, &If{Cond: BoolLit(true), Then: []Stmt{&Define{Names: []string{fmt.Sprintf("r%d", g.uniq)}, X: g.intLit()}, use}}, use)
+		case 2:
+			g.uniq++
+			out = append(out, &ForIn{Key: fmt.Sprintf("k%d", g.uniq), Value: fmt.Sprintf("v%d", g.uniq), X: &ArrayLit{Elems: []Expr{IntLit(40), IntLit(41)}}, Body: []Stmt{use}}, use)
+		default:
+			g.uniq++
+			a, b := fmt.Sprintf("d%d", g.uniq), fmt.Sprintf("dd%d", g.uniq)
+			out = append(out, &If{Cond: BoolLit(true), Then: []Stmt{&Define{Names: []string{a, b}, X: &ArrayLit{Elems: []Expr{IntLit(50), IntLit(51)}}}, use}}, use)
+		}
+	}
 	return out
 }
 
